@@ -28,7 +28,11 @@ pub fn parse_systems(doc: &roxmltree::Document) -> (Vec<String>, Vec<VypSystem>)
     let gt_systems = gt_sys::parse_systems(doc);
     // let horarios = todo!();
 
-    log::debug!("Sistemas  GT:\n{:#?}", gt_systems);
+    // TODO: completar sistemas GT. Mientras no se usan, un error en su definición no impide la conversión
+    match gt_systems {
+        Ok(gt_systems) => log::debug!("Sistemas  GT:\n{:#?}", gt_systems),
+        Err(e) => log::warn!("Definición incorrecta de sistemas de CALENER-GT: {}", e),
+    }
 
     log::debug!("Sistemas VyP:\n{:#?}", sistemas);
 
